@@ -99,6 +99,8 @@ type State struct {
 	notes    []string
 	depth    int
 	dead     bool
+	lockSnap *Snapshot         // state right after the most recent lock acquisition
+	private  map[string]bool   // objects allocated by this call and not yet published
 	birth    map[string]string // reference term -> allocated-set term at the time the value became known
 }
 
@@ -111,7 +113,7 @@ type ctxRec struct {
 func (e *Engine) newState() *State {
 	return &State{e: e, heap: map[string]string{},
 		declared: map[string]bool{}, nonnil: map[string]bool{}, locks: map[string]string{}, iters: map[string]*Iter{},
-		ctxs: map[string]ctxRec{}, funcs: map[string]*FuncV{}, birth: map[string]string{}}
+		ctxs: map[string]ctxRec{}, funcs: map[string]*FuncV{}, birth: map[string]string{}, private: map[string]bool{}}
 }
 
 func (st *State) clone() *State {
@@ -141,6 +143,11 @@ func (st *State) clone() *State {
 		n.funcs[k] = v
 	}
 	n.birth = copyMap(st.birth)
+	n.lockSnap = st.lockSnap
+	n.private = map[string]bool{}
+	for k, v := range st.private {
+		n.private[k] = v
+	}
 	n.path = append([]string{}, st.path...)
 	n.notes = append([]string{}, st.notes...)
 	n.depth = st.depth
@@ -243,7 +250,7 @@ func (st *State) assumeWellFormed(v Val) {
 	for i, c := range comps {
 		if strings.HasSuffix(c.Path, ".len") && i >= 2 && strings.HasSuffix(comps[i-1].Path, ".off") {
 			base, off, ln, cp := v.C[i-2], v.C[i-1], v.C[i], v.C[i+1]
-			st.assume(fmt.Sprintf("(and (<= 0 %s) (<= 0 %s) (<= %s %s) (>= %s 0) (=> (= %s 0) (= %s 0)))", off, ln, ln, cp, base, base, cp))
+			st.assume(fmt.Sprintf("(and (<= 0 %s) (<= 0 %s) (<= %s %s) (>= %s 0) (=> (= %s 0) (= %s 0)) (<= (+ %s %s) 281474976710656))", off, ln, ln, cp, base, base, cp, off, cp))
 		}
 		if c.Sort == SStr {
 			st.assume(fmt.Sprintf("(>= (strlen %s) 0)", v.C[i]))
@@ -396,8 +403,11 @@ func (st *State) oblige(kind, label string, props []string, goal string, pos tok
 	fn := e.curFn
 	base := fmt.Sprintf("%s/%s:%s", fn, kind, label)
 	if goal == "true" {
-		// trivially valid: count as discharged syntactically
+		// trivially valid: discharged syntactically (still named, so that its disappearance is noticed)
 		e.trivial[base]++
+		e.obID++
+		tob := &Obligation{ID: e.obID, Name: base, Fn: fn, Kind: kind, Props: props, Goal: goal, Expect: "unsat", Status: "discharged", Solver: "syntactic", emitted: true}
+		e.obligations = append(e.obligations, tob)
 		return nil
 	}
 	ob := &Obligation{Name: base, Fn: fn, Kind: kind, Props: props, Goal: goal, Path: st.pathString(), Expect: "unsat", Replay: e.curReplay}
